@@ -108,6 +108,9 @@ theorem parseOpsF_render : âˆ€ (row : List (Nat Ã— Nat)) (f : Nat), row â‰  [] â
     | cons g2 gs2 =>
       have hne : (g2 :: gs2).flatMap renderGroup â‰  [] := flatMap_renderGroup_ne_nil (by simp)
       have ih := parseOpsF_render (g2 :: gs2) f (by simp) (by simp at hf âŠ¢; omega)
+      have hdrop : ((g2 :: gs2).flatMap renderGroup).dropWhile isWs = (g2 :: gs2).flatMap renderGroup := by
+        simp [List.flatMap_cons, renderGroup, List.dropWhile, isWs]
+      rw [hdrop]
       cases hx : (g2 :: gs2).flatMap renderGroup with
       | nil => exact absurd hx hne
       | cons y ys => rw [hx] at ih; simp [ih]
